@@ -41,6 +41,8 @@ namespace nmtools::error
 #include <malloc.h>
 #include <string.h>
 #include <stdlib.h>
+// placement new, to construct elements in the allocated cells
+#include <new>
 
 #ifndef nmtools_calloc
 #define nmtools_calloc ::calloc
@@ -154,10 +156,11 @@ namespace nmtools::utl
         vector(size_type N)
             : allocator{}
             , buffer_(allocator.allocate(N))
-            , size_(N)
+            , size_(0)
             , buffer_size_(N)
             , initialized(true)
         {
+            // value-initialize the elements
             resize(N);
         }
         vector(const vector& other)
@@ -167,15 +170,19 @@ namespace nmtools::utl
             , buffer_size_(initial_buffer_size)
             , initialized(true)
         {
-            resize(other.size_);
-            // dumb copy
-            for (size_type i=0; i<size_; i++) {
-                buffer_[i] = other.buffer_[i];
+            grow(other.size_);
+            // copy-construct the elements in the raw cells
+            for (size_type i=0; i<other.size_; i++) {
+                new (static_cast<void*>(buffer_+i)) T(other.buffer_[i]);
             }
+            size_ = other.size_;
         }
         ~vector()
         {
-            if (buffer_ && (buffer_size_ > 0)) {
+            if (buffer_) {
+                for (size_type i=0; i<size_; i++) {
+                    buffer_[i].~T();
+                }
                 allocator.deallocate(buffer_);
             }
         }
@@ -199,43 +206,63 @@ namespace nmtools::utl
 
         vector& operator=(const vector& other)
         {
-            resize(other.size_);
-            // dumb copy
-            for (size_type i=0; i<size_; i++) {
-                buffer_[i] = other.buffer_[i];
+            if (this == &other) {
+                return *this;
             }
+            for (size_type i=0; i<size_; i++) {
+                buffer_[i].~T();
+            }
+            size_ = 0;
+            grow(other.size_);
+            for (size_type i=0; i<other.size_; i++) {
+                new (static_cast<void*>(buffer_+i)) T(other.buffer_[i]);
+            }
+            size_ = other.size_;
             return *this;
         }
 
+        protected:
+        // make sure there are at least new_capacity cells, existing elements are kept
+        void grow(size_type new_capacity)
+        {
+            if (!buffer_) {
+                buffer_size_ = new_capacity;
+                buffer_ = allocator.allocate(new_capacity);
+            } else if (buffer_size_ < new_capacity) {
+                buffer_size_ = new_capacity;
+                // TODO: error handling
+                auto new_buffer = allocator.allocate(new_capacity);
+                // the cells are raw memory: construct the elements in the new buffer
+                for (size_type i=0; i<size_; i++) {
+                    new (static_cast<void*>(new_buffer+i)) T(buffer_[i]);
+                    buffer_[i].~T();
+                }
+                allocator.deallocate(buffer_);
+                buffer_ = new_buffer;
+            }
+        }
+
+        public:
         void resize(size_type new_size)
         {
             auto old_size = size_;
-            size_ = new_size;
-            if (!buffer_) {
-                buffer_size_ = new_size;
-                buffer_ = allocator.allocate(new_size);
-            } else if (buffer_size_ < new_size) {
-                buffer_size_ = new_size;
-                // TODO: error handling
-                auto new_buffer = allocator.allocate(new_size);
-                if (buffer_) {
-                    nmtools_memcpy((void*)new_buffer,(void*)buffer_,sizeof(T)*old_size);
-                    allocator.deallocate(buffer_);
-                }
-                buffer_ = new_buffer;
-            } else {
-                // not invalidating the value, for now
+            grow(new_size);
+            // destroy the elements that are removed, value-initialize the new ones
+            for (size_type i=new_size; i<old_size; i++) {
+                buffer_[i].~T();
             }
+            for (size_type i=old_size; i<new_size; i++) {
+                new (static_cast<void*>(buffer_+i)) T();
+            }
+            size_ = new_size;
         }
 
         void push_back(const T& t)
         {
-            if (buffer_size_ < (size_ + 1)) {
-                resize(size_ + 1);
-            } else {
-                size_ = size_ + 1;
-            }
-            buffer_[size_-1] = t;
+            grow(size_ + 1);
+            // the cell exists but holds no object yet
+            new (static_cast<void*>(buffer_+size_)) T(t);
+            size_ = size_ + 1;
         }
 
         // TODO: support emplace_back
